@@ -181,6 +181,16 @@ func configs(thorough bool) []cfgCase {
 		{"lossy-m0-q10", d(func(o *webp.EncoderOptions) { o.Method = 0; o.Quality = 10 })},
 		{"lossy-m6-alphaq50", d(func(o *webp.EncoderOptions) { o.Method = 6; o.AlphaQuality = 50; o.AlphaFiltering = 2 })},
 	}
+	if !thorough {
+		// quick tier: drop two configurations whose import paths are covered by the others
+		keep := cs[:0]
+		for _, x := range cs {
+			if x.name != "lossy-prep1" && x.name != "lossless-meta" {
+				keep = append(keep, x)
+			}
+		}
+		cs = keep
+	}
 	if thorough {
 		cs = append(cs,
 			cfgCase{"lossy-m2-rawalpha", d(func(o *webp.EncoderOptions) { o.Method = 2; o.AlphaCompression = 0 })},
